@@ -239,3 +239,6 @@ _also("C18", technique="deviation-bounded scheduler enumeration at datastore-ope
       rule="manager level: a duplicate new request in every drivable state of a received channel (both directions, both delivery paths, same/different voucher, validator accept/reject) is refused and leaves accessor vector, persisted bytes and event stream untouched; scheduler cells: the same new request delivered twice concurrently, every datastore operation a scheduling point, <=1 (thorough 2) preemptions: accepted at most once and the channel equals the single-delivery reference.")
 _also("C19", rule="the same voucher result may be issued twice in a row; every applied NewVoucher / NewVoucherResult adds exactly one log entry, every other operation none.")
 _also("C20", rule="responder-side pairs (received pull channel with a UseStore/MaxLinks configurer: restart / duplicate / second request arriving as graphsync requests, peer cancel/pause/voucher messages, block-queued / requestor-cancelled / response-completed callbacks, close, validation update, local restart, queries), <=1 (thorough 2) preemptions; restart+restart+peer-cancels with 2 preemptions (capped); x+y+stop triples; monitor add/terminal races; after every execution no goroutine may remain blocked inside the library. Stuck threads get 30 s + 24 h of virtual time before the verdict. A panic in any goroutine the library starts is recovered by overlay-inserted guards and reported as a violation.")
+
+# C01's thorough tier has ~300 real-graphsync cells; a smaller per-cell deadline keeps the whole check under an hour
+CHECKS["C01"]["cell_budget_s"] = {"thorough": 150}
